@@ -5,6 +5,7 @@ import (
 	"bufio"
 	"bytes"
 	"fmt"
+	"io"
 	"os"
 	"os/exec"
 	"path/filepath"
@@ -12,6 +13,7 @@ import (
 	"testing"
 	"time"
 
+	"github.com/goblimey/go-ntrip/apps/appcore"
 	filehandler "github.com/goblimey/go-ntrip/file_handler"
 	"github.com/goblimey/go-ntrip/jsonconfig"
 	"github.com/goblimey/go-ntrip/rtcm/handler"
@@ -83,11 +85,99 @@ var propReuse = stats.Prop(R, "file-handler-reuse", genReuse, checkReuse)
 
 func TestFileHandlerReuse(t *testing.T) { rapid.Check(t, propReuse) }
 
+// ---- through the application core (reader -> file handler -> fan-out), as the programs use it, with the
+// configurations of a file (no tolerance for end of file) and of a live feed (non-zero tolerance: the run
+// ends when the source has been silent for that long).  The start time the caller gives is the one that
+// counts, whatever the wall clock says - recorded data is replayed through the live path too.
+
+type CoreCase struct {
+	History timecase.Case `json:"history"`
+	TolMs   uint          `json:"eof_tolerance_ms"`
+	Split   int           `json:"transient_eof_before_frame"` // > 0 (with a tolerance): one end-of-file result before that frame
+}
+
+type eofOnceReader struct {
+	parts [][]byte
+	i     int
+	gave  bool
+}
+
+func (r *eofOnceReader) Read(p []byte) (int, error) {
+	for r.i < len(r.parts) && len(r.parts[r.i]) == 0 {
+		r.i++
+		if r.i < len(r.parts) && !r.gave {
+			r.gave = true
+			return 0, io.EOF // transient: more follows
+		}
+		r.gave = false
+	}
+	if r.i >= len(r.parts) {
+		return 0, io.EOF
+	}
+	n := copy(p, r.parts[r.i])
+	r.parts[r.i] = r.parts[r.i][n:]
+	return n, nil
+}
+
+func checkCore(c CoreCase, o *stats.Obs) error {
+	feed := func(start time.Time, frames [][]byte) ([]handler.Message, error) {
+		ch := make(chan handler.Message, len(frames)+16)
+		cfg := &jsonconfig.Config{TimeoutOnEOFMilliSeconds: c.TolMs, WaitTimeOnEOFMilliseconds: 1}
+		core := appcore.New(cfg, []chan handler.Message{ch})
+		var a, b []byte
+		for i, f := range frames {
+			if c.TolMs > 0 && c.Split > 0 && i >= c.Split {
+				b = append(b, f...)
+			} else {
+				a = append(a, f...)
+			}
+		}
+		rd := &eofOnceReader{parts: [][]byte{a, b}}
+		done := make(chan struct{})
+		go func() { core.HandleMessagesUntilEOF(start, bufio.NewReader(rd)); close(done) }()
+		select {
+		case <-done:
+		case <-time.After(60 * time.Second):
+			return nil, fmt.Errorf("HandleMessagesUntilEOF did not return")
+		}
+		var out []handler.Message
+		for {
+			select {
+			case m := <-ch:
+				out = append(out, m)
+				continue
+			default:
+			}
+			return out, nil
+		}
+	}
+	if err := timecase.CheckVia(c.History, o, feed); err != nil {
+		return fmt.Errorf("through the application core with an end-of-file tolerance of %d ms: %v", c.TolMs, err)
+	}
+	o.Classes = append(o.Classes, fmt.Sprintf("appcore/tolerance-%dms", c.TolMs))
+	return nil
+}
+
+func genCore(t *rapid.T) CoreCase {
+	c := CoreCase{History: timecase.Gen(t, true), TolMs: rapid.SampledFrom([]uint{0, 30, 30, 200}).Draw(t, "tolMs")}
+	if c.TolMs > 0 && len(c.History.Msgs) > 1 && rapid.Bool().Draw(t, "split") {
+		c.Split = rapid.IntRange(1, len(c.History.Msgs)-1).Draw(t, "splitAt")
+	}
+	return c
+}
+
+var propCore = stats.Prop(R, "appcore", genCore, checkCore)
+
+func TestAppCore(t *testing.T) { rapid.Check(t, propCore) }
+
 // ---- through the displayrtcm3 program with a yyyy-mm-dd argument, under different local time zones
 
 type DisplayCase struct {
 	History timecase.Case `json:"history"` // start = 00:00 UTC of the date given on the command line
 	TZ      string        `json:"tz"`
+	// DateTime: the start is given in the program's other form, date and time with zone offset (RFC 3339),
+	// and may be any instant - also the Saturday evening hours after a constellation's week has rolled over.
+	DateTime bool `json:"date_and_time_argument"`
 }
 
 var runNo int
@@ -109,7 +199,11 @@ func checkDisplay(c DisplayCase, o *stats.Obs) error {
 		}
 		file := filepath.Join(dir, "data.rtcm")
 		os.WriteFile(file, input, 0o644)
-		cmd := exec.Command(bin, file, start.UTC().Format("2006-01-02"))
+		arg := start.UTC().Format("2006-01-02")
+		if c.DateTime {
+			arg = start.Format(time.RFC3339Nano)
+		}
+		cmd := exec.Command(bin, file, arg)
 		cmd.Env = append(os.Environ(), "TZ="+c.TZ)
 		out, err := cmd.Output()
 		if err != nil {
@@ -143,14 +237,21 @@ func checkDisplay(c DisplayCase, o *stats.Obs) error {
 		return nil
 	}
 	if err := timecase.CheckDisplayed(h, o, feed); err != nil {
+		if c.DateTime {
+			return fmt.Errorf("displayrtcm3 <file> %s with TZ=%s: %v", h.Start().Format(time.RFC3339Nano), c.TZ, err)
+		}
 		return fmt.Errorf("displayrtcm3 <file> %s with TZ=%s: %v", h.Start().UTC().Format("2006-01-02"), c.TZ, err)
 	}
 	o.Classes = append(o.Classes, "display-program/TZ="+c.TZ, "date-is-"+h.Start().UTC().Weekday().String())
+	if c.DateTime {
+		o.Classes = append(o.Classes, "display-program/date-and-time-argument")
+	}
 	return nil
 }
 
 func genDisplay(t *rapid.T) DisplayCase {
-	return DisplayCase{History: timecase.GenAt(t, true, true),
+	dt := rapid.Bool().Draw(t, "dateTimeArgument")
+	return DisplayCase{History: timecase.GenAt(t, true, !dt), DateTime: dt,
 		TZ: rapid.SampledFrom([]string{"UTC", "Europe/London", "America/Los_Angeles", "Asia/Tokyo", "Australia/Sydney", "Pacific/Kiritimati", "Europe/Moscow"}).Draw(t, "tz")}
 }
 
